@@ -37,35 +37,57 @@ macro "lane_uniform" "[" ds:Lean.Parser.Tactic.simpLemma,* "]" : tactic =>
       dst_ite, acc_ite, getLsbD_ite, setBit_ite, setBit_self _ _ hi, and_self]))
 
 open Lean Elab Tactic Meta in
-/-- goal `LaneUniform lh_<arch>_<name>`: find the two generated constants and run `lane_uniform` -/
-elab "lane_uniform_auto" : tactic => do
-  let g ← getMainGoal
-  let t ← instantiateMVars (← g.getType)
-  let c := t.appArg!
-  let some n := c.constName? | throwError "lane_uniform_auto: not a generated handler constant: {c}"
-  let s := n.getString!
-  unless s.startsWith "lh_" do throwError "lane_uniform_auto: unexpected constant {n}"
-  let rawN := n.getPrefix.str ("raw_" ++ s.drop 3)
-  evalTactic (← `(tactic| lane_uniform [$(mkIdent n):ident, $(mkIdent rawN):ident]))
+/-- goal `∀ h ∈ [lh_a, lh_b, …], LaneUniform h`: peel the list; for each generated handler constant unfold
+    it and its `raw_…` body and run `lane_uniform`; a body that is not lane-uniform fails the build with
+    its name -/
+elab "lane_uniform_all" : tactic => do
+  let mut fuel := 100000
+  while fuel > 0 do
+    fuel := fuel - 1
+    let g ← getMainGoal
+    let t ← instantiateMVars (← g.getType)
+    -- t = ∀ h, h ∈ L → LaneUniform h
+    let .forallE _ _ body _ := t | throwError "lane_uniform_all: unexpected goal {t}"
+    let .forallE _ memTy _ _ := body | throwError "lane_uniform_all: unexpected goal {t}"
+    let L ← whnfCore memTy.appFn!.appArg!
+    if L.isAppOf ``List.nil then
+      evalTactic (← `(tactic| exact List.forall_mem_nil _))
+      return
+    unless L.isAppOf ``List.cons do throwError "lane_uniform_all: not a list literal: {L}"
+    let c := L.appFn!.appArg!
+    let some n := c.constName? | throwError "lane_uniform_all: not a generated handler constant: {c}"
+    let s := n.getString!
+    unless s.startsWith "lh_" do throwError "lane_uniform_all: unexpected constant {n}"
+    let rawN := n.getPrefix.str ("raw_" ++ s.drop 3)
+    evalTactic (← `(tactic| refine List.forall_mem_cons.mpr ⟨?_, ?_⟩))
+    let gs ← getGoals
+    let (g1, rest) := (gs.head!, gs.tail)
+    setGoals [g1]
+    try
+      evalTactic (← `(tactic| lane_uniform [$(mkIdent n):ident, $(mkIdent rawN):ident]))
+    catch e =>
+      throwError "C06: lane body {n} is NOT lane-uniform (normalisation failed: {e.toMessageData})"
+    unless (← getGoals).isEmpty do
+      throwError "C06: lane body {n} is NOT lane-uniform: iteration i must look only at bit i of VCC / src2 / the accumulator, change only bit i of the accumulator, and do so uniformly in i"
+    setGoals rest
 
-/-- **Every translated lane body is lane-uniform** (regenerated obligation; 161 bodies at the pinned
-    tree): on arbitrary 64-bit VCC / src2 / accumulator values, iteration `i` writes what the lane-local
+/-- **Every translated lane body is lane-uniform** (regenerated obligation; 267 bodies at the pinned
+    tree: 161 integer ones and 106 float ones whose arithmetic is opaque): on arbitrary 64-bit VCC / src2 / accumulator values, iteration `i` writes what the lane-local
     body writes given bit `i` of the masks, and changes the accumulator at bit `i` only. -/
 theorem lane_bodies_uniform : ∀ h ∈ Gen.Lane.laneHandlers, LaneUniform h := by
   unfold Gen.Lane.laneHandlers
-  repeat (first
-    | exact List.forall_mem_nil _
-    | (refine List.forall_mem_cons.mpr ⟨?_, ?_⟩; lane_uniform_auto))
+  lane_uniform_all
 
-example : lh_gcn3_runVADDCU32 ∈ Gen.Lane.laneHandlers ∧ lh_gcn3_runVADDCU32.msrc = .vcc ∧
+example : (Gen.Lane.laneHandlers.any fun h => h.arch == "gcn3" && h.name == "runVADDCU32") = true ∧
+    lh_gcn3_runVADDCU32.msrc = .vcc ∧
     (raw_gcn3_runVADDCU32 Uni.zero ⟨5, 0xffffffff#64, 0#64, 0#64, 0#64, 0x20#64, 0x3#64⟩).acc = 0x23#64 := by
-  refine ⟨by simp [Gen.Lane.laneHandlers], rfl, by decide⟩
+  refine ⟨by decide +kernel, rfl, by decide⟩
 
 /-- the tags of the generated table are consistent: a body that reads the accumulator as its mask source
     accumulates in place, and a body whose mask source is the src2 operand does not -/
 theorem mask_tags_consistent :
     Gen.Lane.laneHandlers.all (fun h =>
-      (h.msrc != .src2 || h.accInit != .vcc) && (h.msrc != .acc || h.accInit == .vcc)) = true := by decide
+      (h.msrc != .src2 || h.accInit != .vcc) && (h.msrc != .acc || h.accInit == .vcc)) = true := by decide +kernel
 
 example : lh_cdna3_runVADDCU32.msrc = .acc ∧ lh_cdna3_runVADDCU32.accInit = .vcc := ⟨rfl, rfl⟩
 
@@ -219,7 +241,7 @@ theorem translation_matches_facts :
       | none => false
       | some v => v.arch == row.arch && v.name == row.name &&
         (match row.cov with
-         | .translated idx =>
+         | .translated idx | .translatedF idx =>
            (match Gen.Lane.laneHandlers[idx]? with
             | some h => h.arch == row.arch && h.name == row.name && FitsSkeleton v && factAccInit v == h.accInit
             | none => false)
@@ -234,8 +256,9 @@ example : Gen.Lane.coverage.length = 329 := by decide +kernel
 def rowTranslated (r : CovRow) : Bool :=
   match r.cov with
   | .translated _ => true
+  | .translatedF _ => true
   | .wrapper cs => cs.all fun c => Gen.Lane.coverage.any fun r2 =>
-      r2.arch == r.arch && r2.name == c && (match r2.cov with | .translated _ => true | _ => false)
+      r2.arch == r.arch && r2.name == c && (match r2.cov with | .translated _ => true | .translatedF _ => true | _ => false)
   | _ => false
 
 def covCount (p : Cov → Bool) : Nat := (Gen.Lane.coverage.filter (fun r => p r.cov)).length
@@ -245,15 +268,20 @@ def namesOf (p : Cov → Bool) : List (String × String) :=
 
 /-- **Summary of the coverage** (tripwire: a new or re-shaped handler changes it and must be looked at).
     Of the 329 vector handler records of both ALUs
-    * 161 are covered by TRANSLATION (lane body in Lean, `handler_is_vexec`), plus the one wrapper
-      (`runVADDI32`) that only selects between two translated handlers;
-    * 111 compute in float32/float64 or call `math.*` and 40 are DS/FLAT memory handlers and helpers
-      (`C06Mem`): these — and the small listed groups — remain covered by the syntactic fit
+    * 161 are covered by TRANSLATION of an integer lane body (`handler_is_vexec`; tied to the code by the
+      `c06 body` correspondence), plus the one wrapper (`runVADDI32`) that selects between two of them;
+    * 106 float handlers are covered by translation of the loop skeleton / mask handling with an opaque
+      float data path (`handler_is_vexec` holds; no body correspondence);
+    * 5 float handlers (slices + `sort`, a `log.Panic` inside a helper) and 40 DS/FLAT memory handlers and
+      helpers (`C06Mem`) — and the small listed groups — remain covered by the syntactic fit
       (`all_vector_handlers_fit`) + the extensional per-lane composition test only;
     * `v_readfirstlane_b32` is the documented cross-lane exception. -/
 theorem coverage_summary :
     covCount (fun c => match c with | .translated _ => true | _ => false) = 161 ∧
-    covCount (· == .float) = 111 ∧ covCount (· == .memory) = 40 ∧
+    covCount (fun c => match c with | .translatedF _ => true | _ => false) = 106 ∧
+    covCount (· == .memory) = 40 ∧
+    namesOf (· == .float) = [("gcn3", "runVMED3F32"), ("gcn3", "runVDIVFIXUPF64"), ("cdna3", "runVCmpClassF32VOP3a"),
+      ("cdna3", "runVMED3F32"), ("cdna3", "runVDIVFIXUPF64")] ∧
     namesOf (fun c => match c with | .wrapper _ => true | _ => false) = [("gcn3", "runVADDI32")] ∧
     namesOf (· == .helper) = [("gcn3", "flatAddr"), ("gcn3", "flatAddrWithScalar"), ("cdna3", "flatAddr"), ("cdna3", "flatAddrWithScalar")] ∧
     namesOf (· == .innerLoop) = [("gcn3", "runBFREVB32"), ("cdna3", "runBFREVB32"), ("cdna3", "runVFFBHU32")] ∧
@@ -261,7 +289,7 @@ theorem coverage_summary :
     namesOf (· == .crossLane) = [("gcn3", "runVREADFIRSTLANEB32"), ("cdna3", "runVREADFIRSTLANEB32")] ∧
     namesOf (· == .noLaneCode) = [("gcn3", "vop3aPreprocess"), ("gcn3", "vop3aPostprocess"), ("cdna3", "vop3aPreprocess"),
       ("cdna3", "vop3aPostprocess"), ("cdna3", "runVCmpFU64")] ∧
-    (Gen.Lane.coverage.filter rowTranslated).length = 162 := by
+    (Gen.Lane.coverage.filter rowTranslated).length = 268 := by
   decide +kernel
 
 example : rowTranslated ⟨"gcn3", "runVADDI32", .wrapper ["runVADDI32Regular", "runVADDI32SDWA"]⟩ = true := by decide +kernel
@@ -276,11 +304,11 @@ def opcodeTranslated (d : C06Facts.Dispatch) : Bool :=
 
 def aluFormat (f : String) : Bool := ["vop1", "vop2", "vop3a", "vop3b", "vopc"].contains f
 
-/-- **Opcode view**: of the 284 VOP1/VOP2/VOP3a/VOP3b/VOPC opcode-switch entries of the two ALUs, 163 run a
-    translated lane body; every other entry runs a handler of one of the listed categories. -/
+/-- **Opcode view**: of the 284 VOP1/VOP2/VOP3a/VOP3b/VOPC opcode-switch entries of the two ALUs, 271 run a
+    translated lane body (163 an integer one, 108 a float one); every other entry runs a handler of one of the listed categories. -/
 theorem translated_opcodes :
     (Gen.dispatch.filter (fun d => aluFormat d.format)).length = 284 ∧
-    (Gen.dispatch.filter (fun d => aluFormat d.format && opcodeTranslated d)).length = 163 ∧
+    (Gen.dispatch.filter (fun d => aluFormat d.format && opcodeTranslated d)).length = 271 ∧
     (Gen.dispatch.filter (fun d => aluFormat d.format && !opcodeTranslated d)).all (fun d =>
       match Gen.Lane.coverage[d.hidx]? with
       | some r => r.arch == d.arch && r.name == d.handler &&
